@@ -1,6 +1,7 @@
 // Command spdy binds the Spdy specs (specs/Spdy) to bfe_spdy:
-//   frames : C39, cases of GenFrame.tla on a pair of real Framers
-//   conn   : C40, scripts of GenConn.tla against the real SPDY server on an in-memory connection
+//
+//	frames : C39, cases of GenFrame.tla on a pair of real Framers
+//	conn   : C40, scripts of GenConn.tla against the real SPDY server on an in-memory connection
 package main
 
 import (
